@@ -2059,7 +2059,9 @@ def install_members(reg):
         return [(st, zf)]
     reg.ext_models[("new", "zipfile.ZipFile")] = new_zip
     reg.ext_models[("with", "ZipFile")] = with_passthrough
-    reg.method_models[("ZipFile", "infolist")] = lambda ex, st, o, a, k, n: [(st, VSeq(ZN(o.t), lambda i: VExt("ZipInfo", ZINFO(o.t, i)), "ZipInfo", tag=("zipinfos", o.t)))]
+    zip_infos = lambda o: VSeq(ZN(o.t), lambda i: VExt("ZipInfo", ZINFO(o.t, i)), "ZipInfo", tag=("zipinfos", o.t))      # noqa: E731
+    reg.method_models[("ZipFile", "infolist")] = lambda ex, st, o, a, k, n: [(st, zip_infos(o))]
+    reg.attr_models[("ZipFile", "filelist")] = lambda ex, st, o: zip_infos(o)          # the list infolist() returns (ASSUMED, zipfile source)
     reg.attr_models[("ZipInfo", "is_dir")] = lambda ex, st, o: VFunc("bound", o, "is_dir")
     reg.method_models[("ZipInfo", "is_dir")] = lambda ex, st, o, a, k, n: [(st, VBool(ZISDIR(o.t)))]
     reg.attr_models[("ZipInfo", "flag_bits")] = lambda ex, st, o: VInt(ZFLAGS(o.t))
